@@ -637,6 +637,7 @@ fn full_sweep(ck: CK, state: &str, kind: &str, thorough: bool) -> bool {
             "creator-handover" => matches!(kind, "update_collection_info" | "freeze_collection_info" | "freeze_token_metadata" | "update_token_metadata"),
             "info-frozen" => kind.starts_with("update_collection_info"),
             "ownership-pending" | "ownership-pending-expired" => kind.starts_with("update_ownership") || kind == "mint",
+            "ownership-pending-before-deadline" | "ownership-pending-height" | "ownership-pending-height-expired" => kind == "update_ownership_accept",
             "ownership-accepted" | "ownership-renounced" => kind.starts_with("update_ownership") || kind == "mint" || kind == "update_start_trading_time",
             "metadata-frozen" => kind == "update_token_metadata" || kind == "freeze_token_metadata",
             "updatable-disabled" => kind == "enable_updatable" || kind == "update_token_metadata",
